@@ -897,6 +897,12 @@ fn one_text(t: &mut Tape, vr: &[u8; 2], cs: u8) -> Vec<u8> {
         }
         return out;
     }
+    if (cs == 3 || cs == 4) && matches!(vr, b"LO" | b"PN" | b"SH" | b"ST" | b"LT" | b"UT" | b"UC") && t.chance(1, 2) {
+        // ISO_IR 144 (ISO 8859-5, Cyrillic) and GB18030: fixed samples whose text form is in `charset_samples`
+        let k = t.below(3) as usize;
+        let pn = vr == b"PN";
+        return charset_samples(cs).iter().filter(|x| x.2 == pn).nth(k % 2).map(|x| x.0.to_vec()).unwrap_or_else(|| b"X".to_vec());
+    }
     let latin1 = cs == 1;
     if latin1 && matches!(vr, b"LO" | b"PN" | b"SH" | b"ST" | b"LT" | b"UT" | b"UC") && t.chance(1, 2) {
         // ISO 8859-1 bytes: odd and even counts of non-ASCII characters
@@ -985,6 +991,35 @@ fn gen_prim(t: &mut Tape, vr: &[u8; 2], multi_ok: bool, cs: u8) -> Prim {
     }
 }
 
+/// (encoded bytes, text, is a person name) of the non-Latin sample values; cs 3 = ISO_IR 144, 4 = GB18030
+pub fn charset_samples(cs: u8) -> &'static [(&'static [u8], &'static str, bool)] {
+    match cs {
+        3 => &[
+            (b"\xB8\xD2\xD0\xDD\xDE\xD2", "Иванов", false),
+            (b"\xBC\xDE\xE1\xDA\xD2\xD0 1", "Москва 1", false),
+            (b"\xB8\xD2\xD0\xDD\xDE\xD2^\xB8\xD2\xD0\xDD", "Иванов^Иван", true),
+            (b"\xBF\xD5\xE2\xE0\xDE\xD2", "Петров", true),
+        ],
+        4 => &[
+            (b"\xCD\xF5\xD0\xA1\xC3\xF7", "王小明", false),
+            (b"\xD6\xD0\xCE\xC4 a", "中文 a", false),
+            (b"\xCD\xF5^\xD0\xA1\xC3\xF7", "王^小明", true),
+            (b"\xD6\xD0", "中", true),
+        ],
+        _ => &[],
+    }
+}
+
+/// text of a sample value of one of the non-Latin character sets, if `b` is one
+pub fn charset_sample_text(b: &[u8]) -> Option<&'static str> {
+    for cs in [3u8, 4] {
+        if let Some(x) = charset_samples(cs).iter().find(|x| x.0 == b) {
+            return Some(x.1);
+        }
+    }
+    None
+}
+
 pub struct GenCfg {
     pub max_depth: u32,
     /// allow private and unknown attributes
@@ -1000,11 +1035,15 @@ pub struct GenCfg {
     pub latin1: bool,
     /// declare Specific Character Set ISO_IR 192 and use UTF-8 text (takes precedence over `latin1`)
     pub utf8: bool,
+    /// 0 = as the two flags say; 3 = ISO_IR 144 (Cyrillic), 4 = GB18030 (takes precedence over both)
+    pub other_cs: u8,
 }
 
 impl GenCfg {
     fn cs(&self) -> u8 {
-        if self.utf8 {
+        if self.other_cs != 0 {
+            self.other_cs
+        } else if self.utf8 {
             2
         } else if self.latin1 {
             1
@@ -1024,6 +1063,7 @@ impl Default for GenCfg {
             all_undefined: false,
             latin1: false,
             utf8: false,
+            other_cs: 0,
         }
     }
 }
@@ -1173,7 +1213,12 @@ fn gen_level(t: &mut Tape, depth: u32, cfg: &GenCfg, top: bool) -> Vec<Elem> {
         els.push(Elem {
             tag: (0x0008, 0x0005),
             vr: *b"CS",
-            val: Val::Prim(Prim::Text(if cfg.cs() == 2 { b"ISO_IR 192".to_vec() } else { b"ISO_IR 100".to_vec() })),
+            val: Val::Prim(Prim::Text(match cfg.cs() {
+                2 => b"ISO_IR 192".to_vec(),
+                3 => b"ISO_IR 144".to_vec(),
+                4 => b"GB18030".to_vec(),
+                _ => b"ISO_IR 100".to_vec(),
+            })),
         });
     }
     els.sort_by_key(|e| e.tag);
